@@ -79,6 +79,8 @@ fn plan(prop: &str, tier: &str, scale: f64) -> Plan {
         }
         "C12" => {
             p.w1_small /= 2;
+            // removed nodes in worn-out (retired) slots
+            p.w3 = if thorough { vec![(1, 70_000, 3), (2, 140_000, 3), (3, 210_000, 3)] } else { vec![(1, 36_000, 3), (2, 70_000, 3)] };
         }
         "C13" => {
             p.w1_small = 0;
@@ -403,6 +405,25 @@ fn main() {
                             let out = match prop {
                                 "C08" => run_w1::<Tok>(&ctx, &cfg, *idx, &mut cov, &mut NoHook),
                                 "C14" => run_w1::<Txt>(&ctx, &cfg, *idx, &mut cov, &mut pretty),
+                                "C11" => {
+                                    // the size of Node<T> is an input of get_node_id: payloads of several sizes,
+                                    // two of them giving a power-of-two node size
+                                    use ixv::payload::Wide;
+                                    use indextree::Node;
+                                    macro_rules! sized {
+                                        ($t:ty) => {{
+                                            cov.maxi(&format!("histories_with_node_size_{}", std::mem::size_of::<Node<$t>>()), idx / 5 + 1);
+                                            run_w1::<$t>(&ctx, &cfg, *idx, &mut cov, &mut NoHook)
+                                        }};
+                                    }
+                                    match idx % 5 {
+                                        0 => sized!(Plain),
+                                        1 => sized!(Wide<4>),
+                                        2 => sized!(Wide<20>),
+                                        3 => sized!(Wide<1>),
+                                        _ => sized!(Wide<7>),
+                                    }
+                                }
                                 "C17" => {
                                     let mut b = ixv::special::BatteryHook::default();
                                     let mut o = run_w1::<Plain>(&ctx, &cfg, *idx, &mut cov, &mut b);
